@@ -330,7 +330,7 @@ fn emit_logs(_key: &str, _inv: usize, _phase: &str, n: usize) {
                 inv: _inv,
                 id: id.clone(),
             });
-            tracing::info!("{id}");
+            tracing::info!("[{id}]");
         }
     }
 }
